@@ -68,6 +68,46 @@ def long_group(r):
     return b",".join(lst)
 
 
+def limit_part(ctx, eng, stats):
+    """lists at the parser's own limit on ranges in one bracket (10240 unrelated numbers under one prefix) and with a lone host
+    numbered 0 popped off the end: what is printed must still read back (implementation and S only)"""
+    names = [b"n%d" % (2 * i + 1) for i in range(10240)]
+    e = b",".join(names)
+    o = eng.run_impl(["ranged %s %d" % (hexs(e), BIG)])[0].split(" ")
+    stats["limit_lists"] = stats.get("limit_lists", 0) + 1
+    if len(o) != 2 or o[0] == "-1" or o[1] == "UNTERMINATED":
+        ctx.violation("input", case="ranged %s.. %d" % (hexs(e)[:200], BIG), expected="fits", observed=" ".join(o)[:200], engine="hl",
+                      detail="10240 unrelated numbers under one prefix do not print into %d bytes" % BIG)
+        return
+    T = unhex(o[1])
+    back = eng.run_impl(["targets1 " + hexs(T)])[0]
+    if back != "OK " + ",".join(hexs(x) for x in names):
+        ctx.violation("input", case="targets1 " + hexs(T)[:2000], expected="the 10240 hosts n1,n3,..", observed=back[:200], engine="hl",
+                      detail="the compressed text of 10240 unrelated numbers under one prefix (%d bytes, it fits) does not parse back: %s" % (len(T), back[:60]))
+    # pop: a list that ends in a lone host numbered 0 loses it; what remains prints and reads back
+    for e, k in ((b"a1,foo0", 1), (b"b[0-2],c0", 1), (b"n[0-3]", 4), (b"x7,n0,n1", 2), (b"q0", 1)):
+        o = eng.run_impl(["popprint %s %d" % (hexs(e), k)])[0]
+        stats["pop_then_print"] = stats.get("pop_then_print", 0) + 1
+        f = o.split(" ")
+        prob = None
+        if o.startswith(("CRASH", "HANG")) or len(f) != 6:
+            prob = "pop then print faulted: " + o[:200]
+        else:
+            left = f[1]
+            rg = unhex(f[3]) if f[3] != "-" else b""
+            dr = unhex(f[5]) if f[5] != "-" else b""
+            names_left = [unhex(x) for x in left.split(",")] if left != "." else []
+            if dr != b",".join(names_left) or int(f[4]) != len(dr) or int(f[2]) != len(rg):
+                prob = "expanded text %r / lengths do not match the hosts left %r" % (dr[:80], left[:80])
+            elif names_left:
+                back = eng.run_impl(["targets1 " + hexs(rg)])[0]
+                if back != "OK " + left:
+                    prob = "compressed text %r does not read back as the hosts left" % rg[:80]
+        if prob:
+            ctx.violation("input", case="popprint %s %d" % (hexs(e), k), expected="the hosts left after the pops, printed both ways", observed=o[:300], engine="hl",
+                          detail=prob + "; list %r after %d pops" % (e, k))
+
+
 def groups_part(ctx, eng, r, exprs, o1, stats):
     """the bracketed form handed out one group at a time (shift_range, pop_range, next_range of an iterator): every piece is
     the corresponding group of the whole text, or - longer than the fixed buffer - a NUL-terminated prefix of it; nothing is
@@ -235,6 +275,7 @@ def run(ctx):
         if len(samples) < 3 and m[0] == "sz" and len(m[3]) > 20 and m[4] == len(m[3]):
             samples.append({"op": m[1], "list": m[2][:60].decode("latin-1"), "n": m[4], "impl": i[:80]})
     groups_part(ctx, eng, r, exprs, o1, stats)
+    limit_part(ctx, eng, stats)
     have_input = any(v["kind"] != "no-failing-input-found" for v in ctx.violations)
     vlib.report_proof_break(ctx, have_input)
     cov = vlib.proof_coverage(ctx, {
